@@ -25,6 +25,18 @@ pub fn consts(module: &naga::Module) -> Vec<TokenStream> {
                     naga::Literal::AbstractInt(v) => Some(quote!(i64 = #v)),
                     naga::Literal::AbstractFloat(v) => Some(quote!(f64 = #v)),
                 },
+                // Zero value constructors like `f32()` are not folded to literals by naga.
+                naga::Expression::ZeroValue(ty) => match &module.types[*ty].inner {
+                    naga::TypeInner::Scalar(scalar) => {
+                        let ty = rust_type(module, &module.types[*ty], MatrixVectorTypes::Rust);
+                        match scalar.kind {
+                            naga::ScalarKind::Bool => Some(quote!(#ty = false)),
+                            naga::ScalarKind::Float => Some(quote!(#ty = 0.0)),
+                            _ => Some(quote!(#ty = 0)),
+                        }
+                    }
+                    _ => None,
+                },
                 _ => None,
             }?;
 
